@@ -214,7 +214,7 @@ def short_case(c):
 
 # ------------------------------------------------------------------ explaining mismatches by named deviations
 DEVIATIONS = ["param.empty_string_is_absent", "cookie.value_sanitized", "client.path_not_escaped", "mux.double_unescape",
-              "validate.absent_collection_length", "response.header_array_joined"]
+              "validate.absent_collection_length", "response.header_array_joined", "validate.exclusive_max_unchecked"]
 
 
 def case_key(v):
